@@ -58,18 +58,13 @@ INVERSE = {
 
 # dirty failure exits accepted with a reason (class 2: infeasible by a value correlation;
 # class 3: no witness, needs an internally inconsistent Tds or an injected fault).  Key = owner|exit
-ASSUMED = {
-    D_ + 'insert|Err':
-        'class 2: the only Err arm without restore is `snapshot == None`, i.e. snapshot_needed was false; then the '
-        'repair policy is Never and the check policy does not fire, so maybe_repair_after_insertion and '
-        'maybe_check_after_insertion return Ok without touching storage, and the transactional insert below is an owner',
-    D_ + 'insert_with_statistics|Err':
-        'class 2: same correlation as DelaunayTriangulation::insert (snapshot is None only when no post-step can fail)',
-}
-ASSUMED[D_ + 'remove_vertex|Err'] = (
-    'class 2: the Err arm after the post-removal repair restores from `snapshot`; snapshot is None only when the repair '
-    'policy is Never, and then should_run_delaunay_repair_for() is false (it returns false for that policy first), so '
-    'the repair block — the only place this exit lives — is not entered')
+ASSUMED = {}
+_SNAP_NONE = ('class 2: `snapshot` is None only when snapshot_needed was false, i.e. the repair policy is Never (and, for '
+              'insert, the check policy does not fire); then every post-step that could fail after the mutation is '
+              'skipped (should_run_delaunay_repair_for / should_check return false first), so the failure arm is never '
+              'taken with snapshot == None. Only this None edge is cut: the Some edge must still restore.')
+for _f in ('insert', 'insert_with_statistics', 'remove_vertex'):
+    INFEASIBLE.setdefault(D_ + _f, []).append(('bool::then', 'err', _SNAP_NONE))
 _F2 = ('class 3 (open item F2): failure after the first new cell was inserted; each of these calls fails only on an '
        'internally inconsistent Tds (missing vertex key, non-manifold cavity boundary, broken neighbour symmetry) or '
        'under an injected fault; no input through the public API found that reaches it')
@@ -169,6 +164,29 @@ def _txn(ctx, cfg, prog, mod):
             ctx.ob('ANCHOR', 'missing|' + oq, cfg, False, 'assumed-infeasible table names a function that no longer exists')
     ctx.floor('TXN owners that can mutate storage', 18, n_mut, cfg)
     ctx.info.setdefault('txn_peeled_exits', {})[cfg] = it
+    # infeasible-edge table: listed as assumptions; the named call must still exist
+    for fq, ents in sorted(INFEASIBLE.items()):
+        fb = prog.bodies.get(fq)
+        if fb is None:
+            ctx.ob('ANCHOR', 'missing|' + fq, cfg, False, 'INFEASIBLE table names a function that no longer exists')
+            continue
+        for (callee, which, reason) in ents:
+            n_edges = 0
+            for body_q in [fq] + [c for c in prog.children.get(fq, [])]:
+                bb_ = prog.bodies.get(body_q)
+                if bb_ is None:
+                    continue
+                for cbb, ct in bb_.calls():
+                    if (ct.resolved or ct.callee) == callee:
+                        cf_ = flow.call_flow(bb_, cbb)
+                        n_edges += len(cf_.err_edges if which == 'err' else cf_.ok_edges)
+            if n_edges == 0:
+                ctx.ob('ANCHOR', 'infeasible-edge-missing|%s|%s' % (fq, callee), cfg, False,
+                       'INFEASIBLE table entry (%s, %s %s edge) matches no edge any more' % (fq, callee, which))
+            else:
+                ctx.ob('TXN', '%s|cut-edge|%s:%s' % (fq, txn.short(callee), which), cfg, False,
+                       '%d result edge(s) of %s removed from the analysed CFG' % (n_edges, callee), assumed=reason,
+                       nontrivial=False, site='%s:%d' % (fb.file, fb.line))
     # inverse table side condition: the inverse call is reachable only on a failure edge
     for q, (inv, undone, reason) in INVERSE.items():
         b = prog.bodies.get(q)
